@@ -94,7 +94,7 @@ m("o07-closeconns-skips-pending-output", "C06", "no-onclose", (EL,
 		}
 		return true
 	})"""))
-m("o08-onshutdown-twice", "C06", "onshutdown-count", ("engine_unix.go",
+m("o08-onshutdown-twice", "C06", "shutdown-twice", ("engine_unix.go",
   """	eng.eventHandler.OnShutdown(s)
 
 	// Notify all event-loops to exit.""",
@@ -166,7 +166,7 @@ m("o15-read-enobufs-swallowed", "C18", "victim-not-closed", (EL,
 		if n == 0 {
 			err = io.EOF
 		}"""))
-m("o16-write-failure-reported-as-nil", "C18", "victim-closed-without-error", (EL,
+m("o16-write-failure-reported-as-nil", "C18", "close-nil-without-local-cause", (EL,
   """	case unix.EAGAIN:
 		return nil
 	default:
@@ -240,6 +240,46 @@ m("o22-outbound-buffered-stale", "C02", "outbound-buffered", (CU,
 	if n := c.outboundBuffer.Buffered(); n > 4096 {
 		return n &^ 1
 	}"""))
+m("o23-map-iterate-stops-early", "C14", "iterate-missing", ("conn_map.go",
+  """	for _, c := range cm.connMap {
+		if c != nil {
+			if !f(c) {
+				return
+			}
+		}
+	}""",
+  """	seen := 0
+	for _, c := range cm.connMap {
+		if c != nil {
+			if seen++; seen > 2 {
+				return
+			}
+			if !f(c) {
+				return
+			}
+		}
+	}"""))
+m("o24-udp-remote-of-three-byte-datagrams", "C17", "udp-remote-addr", (EL,
+  """	if ln, ok := el.listeners[fd]; ok {
+		c = newUDPConn(fd, el, ln.addr, sa, false)
+	} else {""",
+  """	if ln, ok := el.listeners[fd]; ok {
+		if s4, ok := sa.(*unix.SockaddrInet4); ok && n == 3 {
+			s4.Port ^= 1
+		}
+		c = newUDPConn(fd, el, ln.addr, sa, false)
+	} else {"""))
+m("o25-one-byte-datagram-delivered-twice", "C08", "datagram-twice", (EL,
+  """	c.buffer = el.buffer[:n]
+	action := el.eventHandler.OnTraffic(c)
+	if c.remote != nil {""",
+  """	c.buffer = el.buffer[:n]
+	if n == 1 {
+		_ = el.eventHandler.OnTraffic(c)
+		c.buffer = el.buffer[:n]
+	}
+	action := el.eventHandler.OnTraffic(c)
+	if c.remote != nil {"""))
 
 
 def main():
